@@ -206,3 +206,14 @@ Example C05_wire_example :
   [Some OTransition; Some OOther; Some (OUpdate u); Some OInvalid; Some OInvalid;
    Some (OUpdate (UWithdraw 1 None)); Some OInvalid; Some OTransition; Some OInvalid].
 Proof. split; [vm_compute; reflexivity|eexists; vm_compute; reflexivity]. Qed.
+
+(* the stream and the pipeline (Pipe/PipeWire.v, composed with the end-to-end refinement in Props_C01.v:
+   C01_wire_stream_refines_ideal): what a delivery of octets hands to the pipeline is, message for message, what the
+   session over the same octets steps through - a refused frame is no operation, a length field below 5 ends the
+   connection - and the session's state is the run over those messages *)
+From RV Require Import Pipe.PipeWire Pipe.PipeWireProofs.
+Theorem C05_wire_stream_feeds_pipeline : forall k octets,
+  (deliver k octets).1 = map (WMsg k) (omap item_msg (BmpWire.stream octets).1) ++ end_ops k (BmpWire.stream octets).2 /\
+  forall r rid s, (wire_session r rid s octets).1 = (sm_run r rid s (omap item_msg (BmpWire.stream octets).1)).1.
+Proof. exact deliver_session. Qed.
+Print Assumptions C05_wire_stream_feeds_pipeline.
